@@ -2,7 +2,7 @@
    params.go:32-65): every rendered reference denotes the original type under the active
    imports, and every qualifier it uses is the alias of an active import. *)
 From Coq Require Import List Bool String Ascii NArith Arith Lia.
-From GT Require Import IFaceModel IFaceNamesProofs.
+From GT Require Import IFaceModel IFaceNamesProofs IFaceEmbProofs.
 Import ListNotations.
 Local Open Scope string_scope.
 
@@ -155,6 +155,18 @@ Lemma sequence_Forall2 {A B} (f : A -> option B) l l' :
   Forall2 (fun a b => f a = Some b) l l' -> sequence (map f l) = Some l'.
 Proof. induction 1 as [|a b l l' H _ IH]; simpl; [reflexivity|]. rewrite H, IH. reflexivity. Qed.
 
+Lemma Forall2_impl {A B} (P Q : A -> B -> Prop) l l' :
+  (forall a b, P a b -> Q a b) -> Forall2 P l l' -> Forall2 Q l l'.
+Proof. intros H. induction 1; constructor; auto. Qed.
+
+Lemma Forall2_and3 {A B} (P Q : A -> B -> Prop) (R : A -> Prop) l l' :
+  Forall2 P l l' -> Forall2 Q l l' -> Forall R l ->
+  Forall2 (fun a b => P a b /\ R a /\ Q a b) l l'.
+Proof.
+  induction 1 as [|a b l l' Hp _ IH]; intros HQ HR; [constructor|].
+  inversion HQ; subst. inversion HR; subst. constructor; auto.
+Qed.
+
 (* ------------------------------------------------------------------ the main invariant *)
 Section Ref.
   Variable e : env.
@@ -240,8 +252,7 @@ Section Ref.
       destruct (IH Hr _ _ _ _ E2) as [X2 [L2 [V2 [F2 G2]]]].
       split; [eapply extends_trans; eauto|]. split; [simpl; congruence|].
       split.
-      { simpl. rewrite V2. destruct r; simpl; [rewrite orb_false_r; reflexivity|].
-        rewrite andb_false_r. reflexivity. }
+      { simpl. rewrite V2. destruct r, v; reflexivity. }
       split.
       { constructor.
         - simpl. intros Hb. apply andb_true_iff in Hb as [Hv Hr0]. split; [assumption|].
@@ -298,12 +309,12 @@ Section Ref.
 
   Lemma zip_denote st'' l ns xs :
     List.length ns = List.length xs ->
-    Forall2 (fun (p : pinfo * ty) bx =>
+    Forall2 (fun (p : pinfo * ty) (bx : bool * texpr) =>
                exists t', denote (e_self e) local (active st'') (snd bx) = Some t' /\
                           (if fst bx then TSlice t' else t') = erase (snd p)) l xs ->
     sequence (map (fun p : string * bool * texpr =>
                      let '(_, v, y) := p in
-                     option_map (fun t => (blank, if v then TSlice t else t))
+                     option_map (fun t : ty => (blank, if v then TSlice t else t))
                                 (denote (e_self e) local (active st'') y)) (zip_names ns xs))
     = Some (map (fun p : pinfo * ty => (blank, erase (snd p))) l).
   Proof.
@@ -326,12 +337,12 @@ Section Ref.
     ps = (l0 ++ [p])%list -> (exists ps0 pi x, ps = (ps0 ++ [(pi, TSlice x)])%list) ->
     exists y, snd p = TSlice y.
   Proof.
-    intros -> [ps0 [pi [x H]]]. apply app_inj_tail in H as [_ ->]. eauto.
+    intros -> [ps0 [pi [x H]]]. apply app_inj_tail in H as [_ ->]. exists x. reflexivity.
   Qed.
 
   Theorem all_good : forall t, good t.
   Proof.
-    induction t as [s|pkg n targs IH|y IH|y IH|k y IH|k IHk v IHv|ps v rs IHp IHr] using ty_ind';
+    induction t as [s|pkg n targs IH|y IH|y IH|k y IH|k v IHk IHv|ps v rs IHp IHr] using ty_ind';
       intros st x st' H.
     - (* basic *)
       simpl in H. injection H as <- <-. split; [apply extends_refl|]. intros st'' _.
@@ -409,29 +420,17 @@ Section Ref.
         * apply (zip_quals st'' ni xi Q1 a Ha).
         * apply (zip_quals st'' no xo Q2 a Ha).
       + intros Hwf Hinj. inversion Hwf as [| | | | | |? ? ? Hwp Hwr Hvar]; subst.
-        assert (A1 : Forall2 (fun (p : pinfo * ty) bx =>
+        assert (A1 : Forall2 (fun (p : pinfo * ty) (bx : bool * texpr) =>
                      exists t', denote (e_self e) local (active st'') (snd bx) = Some t' /\
                                 (if fst bx then TSlice t' else t') = erase (snd p)) ps xi).
-        { clear -D1 F1 Hwp Hinj Hvar.
-          assert (HH : Forall2 (fun (p : pinfo * ty) bx =>
-                         par_ok st'' (snd p) bx /\ wf_ty (e_self e) local (snd p) /\
-                         (fst bx = true -> v = true /\ exists l0, ps = (l0 ++ [p])%list)) ps xi).
-          { revert Hwp F1. generalize ps at 2 4 as full. intros full Hwp F1.
-            induction D1 as [|p bx l xs Hp _ IHD]; [constructor|].
-            inversion Hwp; subst. inversion F1; subst. constructor; auto. }
+        { pose proof (Forall2_and3 _ _ _ _ _ D1 F1 Hwp) as HH.
           eapply Forall2_impl; [|exact HH]. simpl. intros p bx [Hp [Hw Hb]].
           apply Hp; [assumption|assumption|]. intros Hbx. destruct (Hb Hbx) as [Hv [l0 Hl0]].
           apply (wf_variadic_tail ps p l0 Hl0 (Hvar Hv)). }
-        assert (A2 : Forall2 (fun (p : pinfo * ty) bx =>
+        assert (A2 : Forall2 (fun (p : pinfo * ty) (bx : bool * texpr) =>
                      exists t', denote (e_self e) local (active st'') (snd bx) = Some t' /\
                                 (if fst bx then TSlice t' else t') = erase (snd p)) rs xo).
-        { clear -D2 F2 Hwr Hinj.
-          assert (HH : Forall2 (fun (p : pinfo * ty) bx =>
-                         par_ok st'' (snd p) bx /\ wf_ty (e_self e) local (snd p) /\
-                         (fst bx = true -> false = true /\ exists l0, rs = (l0 ++ [p])%list)) rs xo).
-          { revert Hwr F2. generalize rs at 2 4 as full. intros full Hwr F2.
-            induction D2 as [|p bx l xs Hp _ IHD]; [constructor|].
-            inversion Hwr; subst. inversion F2; subst. constructor; auto. }
+        { pose proof (Forall2_and3 _ _ _ _ _ D2 F2 Hwr) as HH.
           eapply Forall2_impl; [|exact HH]. simpl. intros p bx [Hp [Hw Hb]].
           apply Hp; [assumption|assumption|]. intros Hbx. destruct (Hb Hbx) as [Hv _]. discriminate. }
         cbn [denote].
@@ -445,3 +444,249 @@ Section Ref.
         rewrite Hv. reflexivity.
   Qed.
 End Ref.
+
+(* ------------------------------------------------------------------ methods and the interface *)
+Definition meth_ty (m : meth) : ty := TFunc (m_ps m) (m_variadic m) (m_rs m).
+Definition rmeth_expr (m : rmeth) : texpr := EFunc (rm_in m) (rm_out m).
+
+Fixpoint all_meths (t : tree) : list meth :=
+  match t with Tr _ own embs => (own ++ flat_map all_meths embs)%list end.
+
+Section Iface.
+  Variable e : env.
+  Variable local : string -> bool.
+
+  (* m is the rendering of the declared method m0, good in every later state of the handler *)
+  Definition rendered_from (st : table) (m0 : meth) (m : rmeth) : Prop :=
+    rm_name m = m_name m0 /\
+    forall st'', extends st st'' ->
+      quals_in st'' (rmeth_expr m) /\ den_ok e local st'' (meth_ty m0) (rmeth_expr m).
+
+  Lemma rendered_from_mono st st' m0 m :
+    extends st st' -> rendered_from st m0 m -> rendered_from st' m0 m.
+  Proof.
+    intros Hx [Hn H]. split; [assumption|]. intros st'' Hx'. apply H. eapply extends_trans; eauto.
+  Qed.
+
+  Lemma render_method_func st m :
+    render_method e st m =
+    let '(x, st') := extract e st (meth_ty m) in
+    (match x with EFunc i o => RM (m_name m) i o | _ => RM (m_name m) [] [] end, st').
+  Proof.
+    unfold render_method, meth_ty. rewrite extract_func.
+    destruct (params_from_tuple e st (m_variadic m) (m_ps m)) as [xi s1].
+    destruct (params_from_tuple e s1 false (m_rs m)) as [xo s2].
+    destruct (ensure_param_names (map fst (m_ps m)) (map fst (m_rs m))) as [ni no]. reflexivity.
+  Qed.
+
+  Lemma render_method_ok st m0 m st' :
+    render_method e st m0 = (m, st') -> extends st st' /\ rendered_from st' m0 m.
+  Proof.
+    rewrite render_method_func. destruct (extract e st (meth_ty m0)) as [x s1] eqn:E.
+    intros H. injection H as <- <-.
+    destruct (all_good e local (meth_ty m0) _ _ _ E) as [X G]. split; [assumption|].
+    assert (Hx : exists i o, x = EFunc i o).
+    { unfold meth_ty in E. rewrite extract_func in E.
+      destruct (params_from_tuple e st (m_variadic m0) (m_ps m0)) as [xi t1].
+      destruct (params_from_tuple e t1 false (m_rs m0)) as [xo t2].
+      destruct (ensure_param_names (map fst (m_ps m0)) (map fst (m_rs m0))) as [ni no].
+      injection E as <- _. eauto. }
+    destruct Hx as [i [o ->]]. split; [reflexivity|]. intros st'' Hx. apply (G st'' Hx).
+  Qed.
+
+  Lemma render_methods_ok : forall ms st rs st',
+    render_methods e st ms = (rs, st') ->
+    extends st st' /\ Forall2 (rendered_from st') ms rs.
+  Proof.
+    induction ms as [|m r IH]; intros st rs st' H; simpl in H.
+    - injection H as <- <-. split; [apply extends_refl|constructor].
+    - destruct (render_method e st m) as [x s1] eqn:E1.
+      destruct (render_methods e s1 r) as [xs s2] eqn:E2. injection H as <- <-.
+      destruct (render_method_ok _ _ _ _ E1) as [X1 R1]. destruct (IH _ _ _ E2) as [X2 R2].
+      split; [eapply extends_trans; eauto|]. constructor; [|assumption].
+      eapply rendered_from_mono; eauto.
+  Qed.
+
+  Lemma Forall2_names st ms rs : Forall2 (rendered_from st) ms rs -> map rm_name rs = map m_name ms.
+  Proof. induction 1 as [|m r ms rs [Hn _] _ IH]; simpl; [reflexivity|]. rewrite Hn, IH. reflexivity. Qed.
+
+  (* ---- the merge on rendered methods projects to the merge on names ---- *)
+  Lemma existsb_map_name nm (l : list rmeth) :
+    existsb (fun x => String.eqb (rm_name x) nm) l = existsb (fun x => String.eqb x nm) (map rm_name l).
+  Proof. induction l; simpl; [reflexivity|]. rewrite IHl. reflexivity. Qed.
+
+  Lemma filter_map_name nm (l : list rmeth) :
+    map rm_name (filter (fun x => negb (String.eqb (rm_name x) nm)) l) =
+    filter (fun x => negb (String.eqb x nm)) (map rm_name l).
+  Proof.
+    induction l as [|x r IH]; simpl; [reflexivity|].
+    destruct (String.eqb (rm_name x) nm); simpl; [assumption|]. rewrite IH. reflexivity.
+  Qed.
+
+  Definition proj (acc : list rmeth * list string) : list string * list string :=
+    (map rm_name (fst acc), snd acc).
+
+  Lemma merge_one_proj acc m :
+    proj (merge_one rm_name acc m) = merge_one (fun n : string => n) (proj acc) (rm_name m).
+  Proof.
+    destruct acc as [toadd ign]. unfold merge_one, proj. cbn [fst snd].
+    destruct (mem (rm_name m) ign); [reflexivity|].
+    rewrite existsb_map_name.
+    destruct (existsb (fun x => String.eqb x (rm_name m)) (map rm_name toadd)); cbn [fst snd].
+    - rewrite filter_map_name. reflexivity.
+    - rewrite map_app. reflexivity.
+  Qed.
+
+  Lemma merge_proj : forall ms acc,
+    proj (merge rm_name acc ms) = merge (fun n : string => n) (proj acc) (map rm_name ms).
+  Proof.
+    unfold merge. induction ms as [|m r IH]; intros acc; simpl; [reflexivity|].
+    rewrite IH, merge_one_proj. reflexivity.
+  Qed.
+
+  Lemma merge_one_sub acc (m x : rmeth) :
+    In x (fst (merge_one rm_name acc m)) -> In x (fst acc) \/ x = m.
+  Proof.
+    destruct acc as [toadd ign]. unfold merge_one. cbn [fst snd].
+    destruct (mem (rm_name m) ign); cbn [fst]; [auto|].
+    destruct (existsb _ toadd); cbn [fst].
+    - intros H. apply filter_In in H. tauto.
+    - intros H. apply in_app_or in H as [H|[H|[]]]; auto.
+  Qed.
+
+  Lemma merge_sub : forall ms acc x,
+    In x (fst (merge rm_name acc ms)) -> In x (fst acc) \/ In x ms.
+  Proof.
+    unfold merge. induction ms as [|m r IH]; intros acc x H; simpl in H; [auto|].
+    apply IH in H as [H|H]; [|right; right; assumption].
+    apply merge_one_sub in H as [H| ->]; [auto|right; left; reflexivity].
+  Qed.
+
+  Variables priv emb flt : bool.
+
+  Definition sourced (st : table) (t : tree) (m : rmeth) : Prop :=
+    exists m0, In m0 (all_meths t) /\ rendered_from st m0 m.
+
+  Definition emb_loop :=
+    fix go (acc : list rmeth * list string) (st : table) (l : list tree) {struct l} :=
+      match l with
+      | [] => (acc, st)
+      | f0 :: r => let '(ms, s1) := to_iface_gen e priv emb flt st f0 in
+                   go (merge rm_name acc ms) s1 r
+      end.
+
+  Lemma to_iface_unfold st self own embs :
+    to_iface_gen e priv emb flt st (Tr self own embs) =
+    let '(_, st1) := extract e st self in
+    let '(own', st2) := render_methods e st1 (filter (visible priv) own) in
+    if negb emb then (own', st2) else
+    let '(acc, st3) := emb_loop ([], map rm_name own') st2 embs in
+    ((own' ++ filter (fun m => negb flt || go_ms (Tr self own embs) (rm_name m)) (fst acc))%list, st3).
+  Proof. reflexivity. Qed.
+
+  Definition tree_ok (t : tree) : Prop :=
+    forall st rs st', to_iface_gen e priv emb flt st t = (rs, st') ->
+      extends st st' /\ Forall (sourced st' t) rs /\
+      map rm_name rs = iface_names_gen priv emb flt t.
+
+  Lemma emb_loop_ok : forall embs, Forall tree_ok embs ->
+    forall acc st acc' st' (src : rmeth -> Prop),
+    emb_loop acc st embs = (acc', st') ->
+    extends st st' /\
+    (forall x, In x (fst acc') ->
+       In x (fst acc) \/ exists f, In f embs /\ sourced st' f x) /\
+    proj acc' = fold_left (fun a f => merge (fun n : string => n) a (iface_names_gen priv emb flt f))
+                          embs (proj acc).
+  Proof.
+    induction embs as [|f r IH]; intros Hok acc st acc' st' src H; simpl in H.
+    - injection H as <- <-. split; [apply extends_refl|]. split; [auto|reflexivity].
+    - inversion Hok as [|? ? Hf Hr]; subst.
+      destruct (to_iface_gen e priv emb flt st f) as [ms s1] eqn:E1.
+      destruct (Hf _ _ _ E1) as [X1 [S1 N1]].
+      destruct (IH Hr _ _ _ _ src H) as [X2 [S2 N2]].
+      split; [eapply extends_trans; eauto|]. split.
+      + intros x Hx. apply S2 in Hx as [Hx|[g [Hg Hs]]].
+        * apply merge_sub in Hx as [Hx|Hx]; [auto|]. right. exists f. split; [left; reflexivity|].
+          rewrite Forall_forall in S1. destruct (S1 _ Hx) as [m0 [Hm0 Hr0]].
+          exists m0. split; [assumption|]. eapply rendered_from_mono; eauto.
+        * right. exists g. split; [right; assumption|assumption].
+      + rewrite N2. simpl. rewrite merge_proj, N1. reflexivity.
+  Qed.
+
+  Lemma visible_names own :
+    map m_name (filter (visible priv) own) = filter (fun n => priv || exported n) (map m_name own).
+  Proof.
+    induction own as [|m r IH]; simpl; [reflexivity|]. unfold visible at 1.
+    destruct (priv || exported (m_name m)); simpl; rewrite IH; reflexivity.
+  Qed.
+
+  Lemma filter_map_rm (p : string -> bool) (l : list rmeth) :
+    map rm_name (filter (fun m => p (rm_name m)) l) = filter p (map rm_name l).
+  Proof.
+    induction l as [|x r IH]; simpl; [reflexivity|]. destruct (p (rm_name x)); simpl; rewrite IH; reflexivity.
+  Qed.
+
+  Theorem to_iface_ok : forall t, tree_ok t.
+  Proof.
+    induction t as [self own embs IH] using IFaceEmbProofs.tree_ind'. intros st rs st' H.
+    rewrite to_iface_unfold in H.
+    destruct (extract e st self) as [xs st1] eqn:E0.
+    destruct (render_methods e st1 (filter (visible priv) own)) as [own' st2] eqn:E1.
+    destruct (all_good e local self _ _ _ E0) as [X0 _].
+    destruct (render_methods_ok _ _ _ _ E1) as [X1 R1].
+    pose proof (Forall2_names _ _ _ R1) as Hnames. rewrite visible_names in Hnames.
+    assert (Hsrc : forall st'', extends st2 st'' -> Forall (sourced st'' (Tr self own embs)) own').
+    { intros st'' Hx. clear -R1 Hx. apply Forall_forall. intros x Hx'.
+      assert (H : exists m0, In m0 (filter (visible priv) own) /\ rendered_from st2 m0 x).
+      { induction R1 as [|m0 y ms ys Hr _ IHR]; [contradiction|].
+        destruct Hx' as [<-|Hx']; [exists m0; split; [left; reflexivity|assumption]|].
+        destruct (IHR Hx') as [m1 [H1 H2]]. exists m1. split; [right; assumption|assumption]. }
+      destruct H as [m0 [Hin Hr]]. exists m0. split.
+      - simpl. apply in_or_app. left. apply filter_In in Hin. tauto.
+      - eapply rendered_from_mono; eauto. }
+    destruct (negb emb) eqn:Eemb.
+    - injection H as <- <-. split; [eapply extends_trans; eauto|]. split; [apply Hsrc, extends_refl|].
+      cbn [iface_names_gen]. rewrite Eemb. assumption.
+    - destruct (emb_loop ([], map rm_name own') st2 embs) as [acc st3] eqn:E2. injection H as <- <-.
+      destruct (emb_loop_ok embs IH _ _ _ _ (fun _ => True) E2) as [X2 [S2 N2]].
+      split; [eapply extends_trans; [eassumption|]; eapply extends_trans; eauto|]. split.
+      + apply Forall_app. split; [apply Hsrc; assumption|].
+        apply Forall_forall. intros x Hx. apply filter_In in Hx as [Hx _].
+        apply S2 in Hx as [[]|[f [Hf [m0 [Hm0 Hr]]]]].
+        exists m0. split; [|assumption]. simpl. apply in_or_app. right.
+        apply in_flat_map. exists f. auto.
+      + rewrite map_app, (filter_map_rm (fun n => negb flt || go_ms (Tr self own embs) n)), Hnames. cbn [iface_names_gen]. rewrite Eemb. cbv zeta.
+        f_equal. f_equal.
+        assert (Hp : fst (proj acc) = map rm_name (fst acc)) by reflexivity. rewrite <- Hp, N2.
+        unfold proj. cbn [fst snd]. rewrite Hnames. reflexivity.
+  Qed.
+End Iface.
+
+(* ------------------------------------------------------------------ the statements of Props/C19.v *)
+Lemma typeref_denotes e local t st x st' :
+  extract e st t = (x, st') ->
+  forall st'', extends st' st'' ->
+  wf_ty (e_self e) local t -> alias_injective (active st'') ->
+  denote (e_self e) local (active st'') x = Some (erase t).
+Proof. intros H st'' Hx. exact (proj2 (proj2 (all_good e local t st x st' H) st'' Hx)). Qed.
+
+Lemma typeref_imports e (local : string -> bool) t st x st' :
+  extract e st t = (x, st') ->
+  forall st'', extends st' st'' ->
+  forall a, In a (qualifiers x) -> has_alias (active st'') a.
+Proof. intros H st'' Hx. exact (proj1 (proj2 (all_good e local t st x st' H) st'' Hx)). Qed.
+
+Lemma interface_ok e local priv emb st t rs st' :
+  to_iface e priv emb st t = (rs, st') ->
+  map rm_name rs = iface_names priv emb t /\
+  Forall (fun m => exists m0, In m0 (all_meths t) /\ rm_name m = m_name m0 /\
+            (forall a, In a (qualifiers (rmeth_expr m)) -> has_alias (active st') a) /\
+            (wf_ty (e_self e) local (meth_ty m0) -> alias_injective (active st') ->
+             denote (e_self e) local (active st') (rmeth_expr m) = Some (erase (meth_ty m0)))) rs.
+Proof.
+  intros H.
+  destruct (to_iface_ok e local priv emb true t st rs st' H) as [_ [S N]].
+  split; [exact N|]. apply Forall_forall. intros m Hm. rewrite Forall_forall in S.
+  destruct (S m Hm) as [m0 [Hin [Hn Hr]]]. exists m0. split; [assumption|]. split; [assumption|].
+  exact (Hr st' (extends_refl st')).
+Qed.
